@@ -332,6 +332,15 @@ def m_eq_ic(it, ctx, a, m, f):
     return seq(SStr([_lower(c) for c in x.cs]), SStr([_lower(c) for c in y.cs]))
 
 
+@model(r'str::<impl str>::(starts_with|ends_with)::<(fn\(char\) -> bool \{.*\}|\{closure@.*\})>$')
+def m_starts_with_pred(it, ctx, a, m, f):
+    s = S(a[0])
+    if not s.cs:
+        return False
+    c = s.cs[0] if m.group(1) == 'starts_with' else s.cs[-1]
+    return it.call_closure(ctx, a[1], [c])
+
+
 @model(r'str::<impl str>::starts_with::<(&str|char|&String)>$')
 def m_starts_with(it, ctx, a, m, f):
     s = S(a[0])
